@@ -485,6 +485,12 @@ func (c *oblCtx) submatchInfo(e ast.Expr) (groups int, elem bool, ok bool) {
 	defs := c.defsOf(obj)
 	if len(defs) == 1 && defs[0] != nil {
 		if g, ok := reCall(defs[0], "FindStringSubmatch"); ok {
+			// applied to a match of the very same expression (the parameter of the callback of its
+			// ReplaceAllStringFunc), the search cannot fail — provided the expression has no empty-width assertion
+			// (^ $ \b \B), whose outcome depends on the text around the match
+			if c.ownMatch(defs[0].(*ast.CallExpr)) {
+				return g, true, true
+			}
 			return g, false, true
 		}
 	}
@@ -796,6 +802,80 @@ func (c *oblCtx) idxBound(i string, of ast.Expr) (string, bool) {
 			if c.sameLen(of, f.idxOf) {
 				return "I1: index bounded by len(" + f.idxOf + ")", true
 			}
+			// the index ranges over a slice that was made with exactly len(of) elements
+			if base, extra, ok := c.madeLenOfName(f.idxOf); ok && extra == 0 && base == es(of) && !c.reassigned(es(of)) {
+				return "I1: index bounded by len(" + f.idxOf + "), made with len(" + base + ") elements", true
+			}
+		}
+	}
+	// i := slices.Index*(of, …) (or strings.Index*) with the not-found value excluded on the way here
+	if how, ok := c.foundIndex(i, of); ok {
+		return how, true
+	}
+	return "", false
+}
+
+// madeLenOfName: madeLen for a variable given by name (a fact's idxOf).
+func (c *oblCtx) madeLenOfName(name string) (string, int, bool) {
+	if c.fn == nil {
+		return "", 0, false
+	}
+	var id *ast.Ident
+	ast.Inspect(c.fn, func(x ast.Node) bool {
+		if i, ok := x.(*ast.Ident); ok && i.Name == name && id == nil {
+			if _, isVar := objOf(c.info(), i).(*types.Var); isVar {
+				id = i
+			}
+		}
+		return id == nil
+	})
+	if id == nil {
+		return "", 0, false
+	}
+	return c.madeLen(id)
+}
+
+// foundIndex: the index variable is bound once to slices.Index / slices.IndexFunc / slices.BinarySearch-free search
+// of the indexed slice, and the "not found" result (-1, or any negative value) leaves before this point.
+func (c *oblCtx) foundIndex(i string, of ast.Expr) (string, bool) {
+	if c.fn == nil {
+		return "", false
+	}
+	var obj types.Object
+	var def ast.Expr
+	n := 0
+	ast.Inspect(c.fn, func(x ast.Node) bool {
+		as, ok := x.(*ast.AssignStmt)
+		if !ok || len(as.Lhs) != 1 || len(as.Rhs) != 1 {
+			return true
+		}
+		if id := identOf(as.Lhs[0]); id != nil && id.Name == i {
+			n++
+			obj = objOf(c.info(), id)
+			def = as.Rhs[0]
+		}
+		return true
+	})
+	if n != 1 || def == nil || obj == nil {
+		return "", false
+	}
+	call, ok := ast.Unparen(def).(*ast.CallExpr)
+	if !ok || len(call.Args) < 1 {
+		return "", false
+	}
+	switch fullName(calleeOf(c.info(), call)) {
+	case "slices.Index", "slices.IndexFunc":
+	default:
+		return "", false
+	}
+	if es(call.Args[0]) != es(of) || c.reassigned(es(of)) {
+		return "", false
+	}
+	// a dominating fact excludes the negative result: `i >= 0` holds (recorded by the walker from `if i == -1 {exit}`,
+	// `if i < 0 {exit}`, `if i >= 0 {…}`)
+	for _, f := range c.facts {
+		if f.holds == i+" >= 0" || f.holds == i+" != -1" || f.holds == "!("+i+" == -1)" || f.holds == "!("+i+" < 0)" {
+			return "I7: " + i + " is the position slices.Index* found in " + es(of) + ", and the not-found result has left before this point", true
 		}
 	}
 	return "", false
@@ -992,6 +1072,11 @@ func (c *oblCtx) checkAccessor(call *ast.CallExpr, fn *types.Func) {
 			}
 		}
 	}
+	// an index computed from a loop variable over a constant range: `for i := range 2 { … Field(i) … Field(1 - i) }`
+	if lo, hi, ok := c.intRange(call.Args[0]); ok && lo >= 0 && c.minLen(recv+"#count") > hi {
+		c.add("OBL-ACCESSOR", call, construct, VOK, fmt.Sprintf("P3: the index lies in [%d, %d] and a dominating count test gives at least %d elements", lo, hi, c.minLen(recv+"#count")), true)
+		return
+	}
 	if why, ok := c.justifiedFor(call, construct); ok {
 		c.add("OBL-ACCESSOR", call, construct, VJustified, why, true)
 		return
@@ -1025,4 +1110,136 @@ func (c *oblCtx) justifiedFor(e ast.Expr, construct string) (string, bool) {
 		return why, true
 	}
 	return "", false
+}
+
+// ownMatch: call is re.FindStringSubmatch(p) with p the (never re-assigned) parameter of a function literal passed to
+// re.ReplaceAllStringFunc for the same package-level re, and re contains no empty-width assertion.
+func (c *oblCtx) ownMatch(call *ast.CallExpr) bool {
+	info := c.info()
+	sel, ok := call.Fun.(*ast.SelectorExpr)
+	if !ok || len(call.Args) != 1 || identOf(sel.X) == nil || identOf(call.Args[0]) == nil {
+		return false
+	}
+	reObj := objOf(info, identOf(sel.X))
+	_, pat, ok := c.regexpOf(sel.X)
+	if !ok {
+		return false
+	}
+	tree, err := syntax.Parse(pat, syntax.Perl)
+	if err != nil {
+		return false
+	}
+	var hasAssert func(r *syntax.Regexp) bool
+	hasAssert = func(r *syntax.Regexp) bool {
+		switch r.Op {
+		case syntax.OpBeginLine, syntax.OpEndLine, syntax.OpBeginText, syntax.OpEndText, syntax.OpWordBoundary, syntax.OpNoWordBoundary:
+			return true
+		}
+		for _, sub := range r.Sub {
+			if hasAssert(sub) {
+				return true
+			}
+		}
+		return false
+	}
+	if hasAssert(tree) {
+		return false
+	}
+	p := objOf(info, identOf(call.Args[0]))
+	found := false
+	ast.Inspect(c.fn, func(x ast.Node) bool {
+		outer, ok := x.(*ast.CallExpr)
+		if !ok || len(outer.Args) != 2 || fullName(calleeOf(info, outer)) != "(*regexp.Regexp).ReplaceAllStringFunc" {
+			return true
+		}
+		osel, ok := outer.Fun.(*ast.SelectorExpr)
+		if !ok || identOf(osel.X) == nil || objOf(info, identOf(osel.X)) != reObj {
+			return true
+		}
+		lit, ok := outer.Args[1].(*ast.FuncLit)
+		if !ok || lit.Type.Params.NumFields() != 1 || len(lit.Type.Params.List[0].Names) != 1 || info.Defs[lit.Type.Params.List[0].Names[0]] != p {
+			return true
+		}
+		if !(lit.Body.Pos() <= call.Pos() && call.End() <= lit.Body.End()) {
+			return true
+		}
+		assigned := false
+		ast.Inspect(lit.Body, func(y ast.Node) bool {
+			if as, ok := y.(*ast.AssignStmt); ok {
+				for _, l := range as.Lhs {
+					if id := identOf(l); id != nil && objOf(info, id) == p {
+						assigned = true
+					}
+				}
+			}
+			return true
+		})
+		if !assigned {
+			found = true
+		}
+		return true
+	})
+	return found
+}
+
+// intRange bounds an integer expression built from constants, `+`/`-`, and variables that range over a constant
+// number of iterations (`for i := range N`, never assigned in the body).
+func (c *oblCtx) intRange(e ast.Expr) (lo, hi int, ok bool) {
+	e = ast.Unparen(e)
+	if k, isK := c.constInt(e); isK {
+		return k, k, true
+	}
+	switch v := e.(type) {
+	case *ast.Ident:
+		if c.fn == nil {
+			return 0, 0, false
+		}
+		obj := objOf(c.info(), v)
+		found := false
+		n := 0
+		ast.Inspect(c.fn, func(x ast.Node) bool {
+			rs, isR := x.(*ast.RangeStmt)
+			if !isR || identOf(rs.Key) == nil || c.info().Defs[identOf(rs.Key)] != obj || rs.Value != nil {
+				return true
+			}
+			if k, isK := c.constInt(rs.X); isK && k > 0 {
+				assigned := false
+				ast.Inspect(rs.Body, func(y ast.Node) bool {
+					switch s := y.(type) {
+					case *ast.AssignStmt:
+						for _, l := range s.Lhs {
+							if id := identOf(l); id != nil && objOf(c.info(), id) == obj {
+								assigned = true
+							}
+						}
+					case *ast.IncDecStmt:
+						if id := identOf(s.X); id != nil && objOf(c.info(), id) == obj {
+							assigned = true
+						}
+					}
+					return true
+				})
+				if !assigned {
+					found, n = true, k
+				}
+			}
+			return true
+		})
+		if found {
+			return 0, n - 1, true
+		}
+	case *ast.BinaryExpr:
+		l1, h1, ok1 := c.intRange(v.X)
+		l2, h2, ok2 := c.intRange(v.Y)
+		if !ok1 || !ok2 {
+			return 0, 0, false
+		}
+		switch v.Op {
+		case token.ADD:
+			return l1 + l2, h1 + h2, true
+		case token.SUB:
+			return l1 - h2, h1 - l2, true
+		}
+	}
+	return 0, 0, false
 }
